@@ -563,6 +563,18 @@ class SymInterp(Interp):
                     out.append(SArr(tuple(sh), [rat(int(x)) for x in l]))
                 return tuple(out)
             return ix_
+        if name in ("nanmax", "nanmin"):
+            def nanext(a, axis=None, initial=None, **kw):
+                arr = S.asarr(a)
+                if axis is not None:
+                    raise AnalysisAbort(f"np.{name} with axis")
+                vals = [v for v in arr.data if not (isinstance(v, Rat) and "nan" in v.symbols())]
+                if initial is not None:
+                    vals.append(rat(initial))
+                if not vals:
+                    return Rat.sym("nan")
+                return I.np_minmax("max" if "max" in name else "min", SArr((len(vals),), vals), None)
+            return nanext
         if name in ("max", "min", "amax", "amin"):
             return lambda a, axis=None, **kw: I.np_minmax("max" if "max" in name else "min", a, axis)
         if name == "gradient":
